@@ -54,7 +54,7 @@ PROPS["C20"] = {
 
 PROPS["C16"] = {
     "witness_always": ["dvi_values"],
-    "witness_bound": {"dvi_values": "VarRemover / Values::update: every operation sequence of length <= 5 over 17 templates (4 variables, unbalanced push/pop, page starts, rules, chars), independent position tracker before vs after"},
+    "witness_bound": {"dvi_values": "VarRemover / Values::update: every operation sequence of length <= 5 over 17 templates (4 variables, unbalanced push/pop, page starts, rules, chars), independent position tracker before vs after; string / blob forms (xxx of every length 0..300 and at the 2^16 boundaries, fnt_def over all area / name lengths x 8 font numbers at the width boundaries, pre with every comment length; 2640 operations, printable ASCII): round trip with suffix, minimal operand width, every proper prefix rejected without panic"},
     "level": "proof",
     "verus": ["dvi_values"],
     "kani": ["dvi_codec"],
